@@ -278,6 +278,75 @@ def c_newtype_cmp(ex, st, key, argv, dest_ty, raw):
     return [Case(None, ap)]
 
 
+def c_option_get_or_insert(ex, st, key, argv, dest_ty, raw):
+    """Option::get_or_insert(&mut self, v) -> &mut T ; Option::insert(&mut self, v) -> &mut T"""
+    o = deref(argv[0])
+    inner_ty = strip_ref_ty(dest_ty)
+    is_insert = key.endswith("::insert")
+
+    def some(ex, st, a):
+        o2 = deref(a[0])
+        if is_insert:
+            a[0].cell.v = ex.make_enum(o2.ty, "Some", [a[1]])
+            o2 = a[0].cell.v
+        return Ref(ex.field(o2, "Some", 0, inner_ty))
+
+    def none(ex, st, a):
+        o2 = deref(a[0])
+        a[0].cell.v = ex.make_enum(o2.ty, "Some", [a[1]])
+        return Ref(a[0].cell.v.fields[("Some", 0)])
+    return enum_cases(ex, st, o, {"Some": some, "None": none})
+
+
+def c_option_or(ex, st, key, argv, dest_ty, raw):
+    o = argv[0]
+    return enum_cases(ex, st, o, {"Some": lambda ex, st, a: a[0], "None": lambda ex, st, a: a[1]})
+
+
+def c_int_minmax(ex, st, key, argv, dest_ty, raw):
+    op = key.split("::")[-1]
+
+    def ap(ex, st, a):
+        x, y = a[0], a[1]
+        if op == "min":
+            return z3.If(z3.ULE(x, y), x, y)
+        return z3.If(z3.UGE(x, y), x, y)
+    return [Case(None, ap)]
+
+
+def c_int_cmp(ex, st, key, argv, dest_ty, raw):
+    op = key.split("::")[-1]
+    f = {"lt": z3.ULT, "le": z3.ULE, "gt": z3.UGT, "ge": z3.UGE, "eq": lambda a, b: a == b, "ne": lambda a, b: a != b}[op]
+    return [Case(None, lambda ex, st, a: f(deref(a[0]), deref(a[1])))]
+
+
+def c_saturating_sub(ex, st, key, argv, dest_ty, raw):
+    return [Case(None, lambda ex, st, a: z3.If(z3.ULT(a[0], a[1]), z3.BitVecVal(0, a[0].size()), a[0] - a[1]))]
+
+
+def c_wrapping(ex, st, key, argv, dest_ty, raw):
+    op = key.split("::")[-1]
+    return [Case(None, lambda ex, st, a: a[0] + a[1] if op == "wrapping_add" else a[0] - a[1])]
+
+
+def c_checked(ex, st, key, argv, dest_ty, raw):
+    op = key.split("::")[-1]
+
+    def cases_for(ex, st, a0, a1):
+        n = a0.size()
+        if op == "checked_add":
+            wide = z3.ZeroExt(1, a0) + z3.ZeroExt(1, a1)
+            ovf = z3.Extract(n, n, wide) == 1
+            val = a0 + a1
+        else:
+            ovf = z3.ULT(a0, a1)
+            val = a0 - a1
+        return ovf, val
+    ovf, _ = cases_for(ex, st, argv[0], argv[1])
+    return [Case(ovf, lambda ex, st, a: ex.make_enum(dest_ty, "None")),
+            Case(z3.Not(ovf), lambda ex, st, a: ex.make_enum(dest_ty, "Some", [cases_for(ex, st, a[0], a[1])[1]]))]
+
+
 def c_saturating_add(ex, st, key, argv, dest_ty, raw):
     def ap(ex, st, a):
         x, y = a[0], a[1]
@@ -290,6 +359,13 @@ def c_saturating_add(ex, st, key, argv, dest_ty, raw):
 def std_contracts():
     return [
         (r"^core::num::(usize|u64|u32)::saturating_add$", c_saturating_add),
+        (r"^core::num::(usize|u64|u32)::saturating_sub$", c_saturating_sub),
+        (r"^core::num::(usize|u64|u32)::(wrapping_add|wrapping_sub)$", c_wrapping),
+        (r"^core::num::(usize|u64|u32)::(checked_add|checked_sub)$", c_checked),
+        (r"^(std|core)::cmp::(min|max)$|^(usize|u64|u32) as Ord::(min|max)$|^Ord::(min|max)$|^cmp::(min|max)$", c_int_minmax),
+        (r"^(usize|u64|u32|u8|bool) as Partial(Ord|Eq)::(lt|le|gt|ge|eq|ne)$", c_int_cmp),
+        (r"^Option::get_or_insert$|^Option::insert$", c_option_get_or_insert),
+        (r"^Option::or$", c_option_or),
         (r"^(VarInt|StreamId|PushId|SessionId|T) as (From|Into)::(from|into)$", c_newtype_conv),
         (r"^(VarInt|StreamId|PushId|T) as Partial(Ord|Eq)::(lt|le|gt|ge|eq|ne)$", c_newtype_cmp),
         (r"^core::fmt::rt::Argument::new_|^Argument::new_|^Arguments::new|^format$|^core::fmt::rt::Argument", c_opaque),
